@@ -317,7 +317,7 @@ class MITMProxyEventManager:
                 if not region:
                     return
                 parsed = llsd.parse_xml(flow.response.content)
-                if "uploader" in parsed:
+                if parsed.get("uploader"):
                     region.register_cap(cap_data.cap_name + "Uploader", parsed["uploader"], CapType.TEMPORARY)
         except:
             LOG.exception("OOPS, blew up in HTTP proxy!")
